@@ -5,6 +5,9 @@
 EXTENDS AdaptiveLoop, Json, IOUtils
 
 JTrace == JsonDeserialize(IOEnv.TRACE_FILE)
+\* the key operators of Sessions.tla (its variables are not used here)
+Sess == INSTANCE Sessions WITH MaxRuns <- 0, KeyHasProblem <- TRUE, InlineAtStart <- TRUE, Domains <- {}, Quads <- {},
+                               wd <- 0, run <- 0, phase <- "idle", mat <- 0, rhs <- 0, est <- 0, nruns <- 0, prev <- 0
 VARIABLES l, bad, seen, tphase, sess,
           strict,   \* TRUE inside a run that announced its configuration (complete iterations of the driver)
           tcfg,     \* that configuration
@@ -20,6 +23,7 @@ StrictPhase(r) ==
   IF r.phase = "iter" THEN (IF exp = <<>> THEN {} ELSE {"d:protocol-iteration-incomplete"})
   ELSE IF r.phase = "regrid-observed"
        THEN (IF tcfg.refinement = "uniform" /\ tcfg.grading /\ tcfg.domain \in RegridDomains THEN {} ELSE {"d:protocol-unexpected-new-mesh"})
+  ELSE IF r.phase = "hier-loaded" THEN (IF exp # <<>> /\ Head(exp) \in {"hier", "residual"} THEN {} ELSE {"d:protocol-step"})
   ELSE IF exp # <<>> /\ Head(exp) = r.phase THEN {} ELSE {"d:protocol-step"}
 Failed(r) ==
   IF r.k = "phase" /\ strict THEN StrictPhase(r)
@@ -36,6 +40,15 @@ Failed(r) ==
        \* (at iteration 0 the matrix is below the size at which bilform_matrix uses files at all: Assembly.tla, inline path)
        (IF r.sl_hit THEN {"d:session-matrix-file-for-small-size"} ELSE {})
        \cup (IF r.m0_hit # (r.prior = r.problem /\ HasU0(r.problem)) THEN {"d:session-vector-cache"} ELSE {})
+  ELSE IF r.k = "estload" THEN
+       \* Sessions.tla: an estimator array is loaded from a file iff an earlier run in this directory stored one under the same key
+       LET me == [problem |-> r.problem, domain |-> r.domain, exact |-> r.exact, q |-> <<r.q0, r.q1>>]
+           P(i) == [problem |-> r.priors[i].problem, domain |-> r.priors[i].domain, exact |-> r.priors[i].exact, q |-> <<r.priors[i].q0, r.priors[i].q1>>]
+           I == 1..Len(r.priors) IN
+       (IF r.wl2 = (\E i \in I : Sess!L2Key(P(i)) = Sess!L2Key(me)) THEN {} ELSE {"d:session-weighted-l2-file"})
+       \cup (IF r.sob = (\E i \in I : Sess!SobKey(P(i)) = Sess!SobKey(me)) THEN {} ELSE {"d:session-sobolev-file"})
+       \cup (IF r.hier = (\E i \in I : r.priors[i].hier_enabled /\ Sess!HierKey(P(i)) = Sess!HierKey(me)) THEN {} ELSE {"d:session-hierarchical-file"})
+       \cup (IF r.m0 = (HasU0(r.problem) /\ \E i \in I : Sess!M0Key(P(i)) = Sess!M0Key(me)) THEN {} ELSE {"d:session-vector-cache"})
   ELSE IF r.k = "run" THEN (IF r.exc # "" THEN {"run-failed"} ELSE {})
                            \cup (IF strict /\ r.exc = "" /\ exp # <<>> THEN {"d:protocol-iteration-incomplete"} ELSE {})
                            \cup (IF strict /\ r.exc = "" /\ r.iterations # tcfg.iters THEN {"d:protocol-iterations"} ELSE {})
@@ -54,6 +67,7 @@ TStep ==
        /\ exp' = IF r.k \in {"cfg", "run"} THEN <<>>
                 ELSE IF r.k = "phase" /\ strict
                      THEN (IF r.phase = "iter" THEN ExpectedIter(tcfg)
+                           ELSE IF r.phase = "hier-loaded" THEN (IF exp # <<>> /\ Head(exp) = "hier" THEN Tail(exp) ELSE exp)
                            ELSE IF exp # <<>> /\ Head(exp) = r.phase THEN Tail(exp) ELSE exp)
                 ELSE exp
        /\ tphase' = IF r.k = "phase" THEN r.phase ELSE tphase
